@@ -188,7 +188,11 @@ func genC01Case(t *rapid.T) (*ScalarCase, bool) {
 	isFloat := strings.HasPrefix(kind, "float")
 	// bound
 	var b int64
+	bigLen := false
 	switch {
+	case kind == "string" && rapid.IntRange(0, 79).Draw(t, "bigLen") == 41:
+		// lengths around and beyond 64 KiB (in three-byte characters the byte count passes it at 21846)
+		b, bigLen = int64(rapid.SampledFrom([]int{21845, 21846, 22000, 30000, 65535, 65536, 65537}).Draw(t, "bigBound")), true
 	case isLen:
 		b = int64(rapid.IntRange(-2, 12).Draw(t, "lenBound"))
 	case rapid.IntRange(0, 2).Draw(t, "smallBound") == 0:
@@ -224,11 +228,15 @@ func genC01Case(t *rapid.T) (*ScalarCase, bool) {
 		if n < 1 {
 			n, near = 1, target <= 2
 		}
-		if n > 40 {
+		if n > 40 && !bigLen {
 			n = 40
 			near = false
 		}
-		c.T, c.Val = desc.Scalar("string"), desc.Str(strOfRunes(t, int(n)))
+		if bigLen {
+			c.T, c.Val = desc.Scalar("string"), desc.Str(strings.Repeat(rapid.SampledFrom([]string{"长", "a", "é"}).Draw(t, "bigRune"), int(n)))
+		} else {
+			c.T, c.Val = desc.Scalar("string"), desc.Str(strOfRunes(t, int(n)))
+		}
 	case strings.HasPrefix(kind, "slice"):
 		n := addSat(target, delta)
 		if n < 1 {
